@@ -225,7 +225,11 @@ func (e *Engine) retOrds(fi *FuncInfo) map[token.Pos]int {
 // pkgVarInit: package-level variables initialised by simple composite literals of constants
 // (lookup tables) are supported read-only.
 func (e *Engine) pkgVarInit(fc *FCtx, o *types.Var) (Val, bool) {
-	if !isBigIntLike(o.Type()) {
+	basicInt := false
+	if bt, ok := o.Type().Underlying().(*types.Basic); ok && bt.Info()&types.IsInteger != 0 && strings.HasPrefix(o.Pkg().Path(), modPath) {
+		basicInt = true
+	}
+	if !isBigIntLike(o.Type()) && !basicInt {
 		return Val{}, false
 	}
 	var pkg *packages.Package
@@ -254,6 +258,16 @@ func (e *Engine) pkgVarInit(fc *FCtx, o *types.Var) (Val, bool) {
 						init = vs.Values[i]
 					} else if i == 0 {
 						init = vs.Values[0]
+					}
+					if basicInt {
+						// an integer variable of this module with a constant initialiser and no other assignment anywhere
+						// in the loaded packages (checked below) is read as that constant
+						tv := pkg.TypesInfo.Types[init]
+						if init == nil || tv.Value == nil || e.assignedSomewhere(o) {
+							return Val{}, false
+						}
+						fc.note("package-level integer variable " + o.Pkg().Name() + "." + o.Name() + " read as its initial constant (no assignment to it in the loaded packages)")
+						return Val{T: bigLitStr(tv.Value.ExactString()), S: SInt, GoT: o.Type()}, true
 					}
 					if b := constBigInit(pkg, init); b != nil {
 						fc.note("package-level big.Int " + o.Name() + " read as its initial constant (assumed never mutated)")
@@ -893,4 +907,79 @@ func (e *Engine) loadOverlay() error {
 		e.overlay[filepath.Join(e.repo, f)] = b
 	}
 	return nil
+}
+
+func bigLitStr(x string) string {
+	if strings.HasPrefix(x, "-") {
+		return "(- " + x[1:] + ")"
+	}
+	return x
+}
+
+// assignedSomewhere: is the package-level variable the target of an assignment, ++/--, or address-of in any loaded
+// package of the module?
+func (e *Engine) assignedSomewhere(o *types.Var) bool {
+	found := false
+	for _, p := range e.pkgs {
+		if p.TypesInfo == nil {
+			continue
+		}
+		uses := func(x ast.Expr) bool {
+			switch t := unparen(x).(type) {
+			case *ast.Ident:
+				return p.TypesInfo.Uses[t] == o
+			case *ast.SelectorExpr:
+				return p.TypesInfo.Uses[t.Sel] == o
+			}
+			return false
+		}
+		for _, f := range p.Syntax {
+			ast.Inspect(f, func(n ast.Node) bool {
+				switch t := n.(type) {
+				case *ast.AssignStmt:
+					for _, l := range t.Lhs {
+						if uses(l) {
+							found = true
+						}
+					}
+				case *ast.IncDecStmt:
+					if uses(t.X) {
+						found = true
+					}
+				case *ast.UnaryExpr:
+					if t.Op == token.AND && uses(t.X) {
+						found = true
+					}
+				}
+				return !found
+			})
+		}
+	}
+	return found
+}
+
+// varInit finds the initialiser expression of a package-level variable of a loaded package.
+func (e *Engine) varInit(o *types.Var) (*packages.Package, ast.Expr) {
+	for _, pkg := range e.pkgs {
+		if pkg.Types != o.Pkg() {
+			continue
+		}
+		for _, f := range pkg.Syntax {
+			for _, d := range f.Decls {
+				gd, ok := d.(*ast.GenDecl)
+				if !ok || gd.Tok != token.VAR {
+					continue
+				}
+				for _, sp := range gd.Specs {
+					vs := sp.(*ast.ValueSpec)
+					for i, nm := range vs.Names {
+						if pkg.TypesInfo.Defs[nm] == o && len(vs.Values) == len(vs.Names) {
+							return pkg, vs.Values[i]
+						}
+					}
+				}
+			}
+		}
+	}
+	return nil, nil
 }
